@@ -150,3 +150,30 @@ PENDING["C07"] = {
 }
 
 CHECKS["C07"] = PENDING.pop("C07")
+
+# --- additions after the abstraction audits (DESIGN.md section 15.2) ---------
+def _append(pid, text=None, note_replace=None, note_add=None):
+    c = CHECKS[pid]
+    if text:
+        c["text"] = c["text"] + " " + text
+    if note_replace:
+        c["note"] = c["note"].replace(note_replace[0], note_replace[1])
+    if note_add:
+        c["note"] = c["note"] + " " + note_add
+
+_append("C09", "Since the audit the real localBuildExecutor with the real OutputHierarchy and build directories also runs under the real wrapper stack (driver TestPipeline: every fault kind at every storage call, referenced digests include files inside Trees and Directory messages), and cancellation that no storage call reports (okcancel) is a fault kind of the model and the drivers.",
+        note_replace=("The base executor is a scripted fake that references a digest only if its Put returned nil (as localBuildExecutor does)", "In the enumeration drivers the base executor is a scripted fake that references a digest only if its Put returned nil; the real localBuildExecutor is driven by TestPipeline"))
+_append("C11", "The real LocalBuildExecutor runs over the real SuspendableClock on the harness clock (driver TestExecutor: every suspension pattern x every instant at which the command ends): DEADLINE_EXCEEDED exactly when the clock ended the command, virtual_execution_duration = unsuspended time at that moment.",
+        note_replace=("localBuildExecutor's use of the clock is not covered", "late delivery of base timers and NewTicker are not covered"))
+_append("C12", "The real LocalBuildExecutor.Execute runs over Shared(Clean(Root)) with a gated runner (every way an action can end: ok, runner error, missing input root/command, directory faults, cancellation): the build directory is removed and the invoker released when Execute returns; every other random schedule uses the real ChainedCleaner.")
+_append("C13", "Attributes returned with looked-up and listed children (incl. the change-id mask an NFSv4 client requests) are judged against the observed counters of the child.")
+_append("C14", "Gated lock-order scenarios hold real directory mutexes through a parking ComponentNormalizer; calls that wait by design (frozen readers / writers) and their wakers; both handle allocators, handle resolution, UserSettableSymlink; the FUSE environment's removal notifier needs the directory's mutex like the kernel does (a notification delivered under a lock is a deterministic hang). Hang and deadlock verdicts come from one consistent goroutine snapshot (every goroutine with real-package frames waits, at least one for a mutex), not from elapsed time. The lock probes of the NFSv4.0/4.1 drivers and of the scheduler traces are C14 verdicts of this check as well.")
+_append("C16", "File contents are accumulated from the call arguments (create size, write, setsize, allocate, O_TRUNC; overlapping parked mutators judged as any permutation), not from the instrumented pool's own events; the digest function of uploads and stats is varied.")
+_append("C17", "A deterministic gallery of 37 malformed Directory kinds (invalid names, duplicates within and across lists, unparsable digests, absent / junk messages) as child, as input root and inside a Tree.")
+for pid in ("C18", "C19", "C20"):
+    CHECKS[pid]["note"] = CHECKS[pid]["note"].replace(
+        "Known findings K1/K2 (one lock-owner through two open-owners on one file) are listed in known_findings.jsonl.",
+        "Known finding K1 (NFSv4.1: one lock-owner through two open-owners on one file) is listed in known_findings.jsonl; its NFSv4.0 twin was repaired (87b13f9). The server's range of lockable offsets is 0 .. 2^64-2 after 62d23a8: [x,2^64-1) and [x,EOF] denote the same lockable bytes, byte 2^64-1 matters only for requests that start at it. Same slot/seqid and same operation type(s) with other arguments is unspecified (cached reply or rejection, never side effects).")
+_append("C19", "NFSv4.1: CREATE_SESSION replay cache, slot and reply-cache records compared at every snapshot (a request that must not execute leaves them unchanged), duplicates of uncached originals in flight, DESTROY_* while a request is held, random histories with requests held in flight. NFSv4.0: OPEN held in flight with retransmissions parked behind it, seqid wrap-around, retry classes by request content.")
+_append("C20", "Requests that start at offset 2^64-1 are generated for LOCK, LOCKT and LOCKU in both servers (finding F12).")
+_append("C07", "The content of a stats message is the set of updates it incorporates (one bit per dirty release in the driver), so a handle created from a stale read visibly lacks updates (finding F11); ISCC.tla has three guard levels (as pinned / write guard / read guard) and MC_ISCC_store_staleread.cfg turns the counterexample of the middle level into a schedule that is replayed on the real store in every run.") if "C07" in CHECKS else None
